@@ -25,7 +25,15 @@ _C19_MUST = (
     ["zapi_rt_header_v%d" % v for v in range(2, 7)] +
     ["zapi_rt_" + n for n in ("HelloBody", "redistributeBody", "vrfLabelBody", "unknownBody", "NexthopRegisterBody", "NexthopUpdateBody", "IPRouteBody")] +
     ["zapi_calls_%s.decodeFromBytes" % n for n in _C19_ZBODIES] +
-    ["zapi_hostile_flavour_" + f for f in _C19_FLAVOURS] + ["zapi_rt_flavour_" + f for f in _C19_FLAVOURS]
+    ["zapi_hostile_flavour_" + f for f in _C19_FLAVOURS] + ["zapi_rt_flavour_" + f for f in _C19_FLAVOURS] +
+    # daemon-level unit (c19d): records written by EnableMrt / received by a BMP station
+    ["mrt_scenarios_nontrivial", "mrt_table_dumps_checked", "mrt_peer_entries_compared", "mrt_rib_entries_compared", "mrt_prefixes_compared",
+     "mrt_bgp4mp_headers_compared", "mrt_bgp4mp_updates_compared", "mrt_rec_TABLE_DUMPv2/PEER_INDEX_TABLE", "mrt_rec_TABLE_DUMPv2/RIB_IPV4_UNICAST",
+     "mrt_rec_TABLE_DUMPv2/RIB_IPV6_UNICAST", "mrt_rec_TABLE_DUMPv2/RIB_IPV4_UNICAST_ADDPATH", "mrt_rec_BGP4MP/MESSAGE", "mrt_rec_BGP4MP/MESSAGE_AS4",
+     "mrt_rec_BGP4MP/MESSAGE_AS4_ADDPATH",
+     "bmp_scenarios_nontrivial", "bmp_msg_initiation", "bmp_msg_peer-up", "bmp_msg_peer-down", "bmp_msg_route-monitoring", "bmp_msg_termination",
+     "bmp_msg_statistics-report", "bmp_rm_pre-policy", "bmp_rm_post-policy", "bmp_rm_loc-rib", "bmp_peer_up_checked", "bmp_peer_down_checked",
+     "bmp_view_comparisons", "bmp_routes_compared", "bmp_stats_reports_compared", "bmp_termination_checked"]
 )
 PROPS["C19"] = dict(
     level="exploration",
@@ -63,5 +71,9 @@ PROPS["C19"] = dict(
              shards=dict(quick=8, thorough=16), timeout_s=dict(quick=600, thorough=3600)),
         dict(name="zebra", harness="t_zebra", files=["common_", "c19_"], run="TestVerifC19",
              shards=dict(quick=8, thorough=16), timeout_s=dict(quick=600, thorough=5400)),
+        # daemon level: a real BgpServer on simnet; MRT scenarios in virtual time (synctest), BMP scenarios in real time
+        # against a loopback TCP station (case idx%3==2). quick 60 MRT + 30 BMP scenarios, thorough 20x.
+        dict(name="daemon", harness="t_server", files=["sim_", "c19d_"], run="TestVerifC19Daemon",
+             shards=dict(quick=8, thorough=16), timeout_s=dict(quick=900, thorough=7200)),
     ],
 )
